@@ -50,6 +50,9 @@ func (s *Schema) UnmarshalJSON(b []byte) error {
 
 	result := ast.Schema{}
 	for name, data := range raw {
+		if name != "" && !isPath(name) {
+			return fmt.Errorf("namespace %q: not a valid namespace name", name)
+		}
 		var jns jsonNamespace
 		if err := json.Unmarshal(data, &jns); err != nil {
 			return fmt.Errorf("namespace %q: %w", name, err)
@@ -294,6 +297,9 @@ func marshalAnnotations(annotations ast.Annotations) map[string]string {
 }
 
 func unmarshalNamespace(jns jsonNamespace) (ast.Namespace, error) {
+	if err := checkNames(jns); err != nil {
+		return ast.Namespace{}, err
+	}
 	ns := ast.Namespace{}
 
 	if len(jns.Annotations) > 0 {
